@@ -67,7 +67,9 @@ def gen(r, tier, i):
     gen = None
     if i >= len(_ENUM) * 4 and r.random() < 0.35:
         # a compartment with 1-2 further steps (legacy derivers only, or flow steps) is generated at run time
-        gen = {'at': r.choice([0.0, 1.0, 2.0]), 'n': r.randint(1, 2), 'flow': r.choice(['none', 'none', 'chain'])}
+        gen = {'at': r.choice([0.0, 1.0, 2.0]), 'n': r.randint(1, 2), 'flow': r.choice(['none', 'none', 'chain']),
+               # a flow step without dependencies deletes the generated compartment again in a later step phase
+               'kill_after': r.choice([None, None, 1.0, 2.0])}
     return {'gen': gen, 'deps': deps, 'comp': comp, 'order': order, 'nder': nder,
             'der_in': [r.choice(['steps', 'processes']) for _ in range(nder)],
             'procs': [r.choice([0.5, 1.0, 1.5, 2.0]) for _ in range(r.randint(1, 3))],
@@ -125,6 +127,21 @@ def run(spec):
                 return upd
         processes['gen'] = Gen({'timestep': 1.0})
         topo['gen'] = {'cells': ('cells',), 'clk': ('genclk',), 'log': ('log',)}
+        if gen.get('kill_after') is not None:
+            from vivarium.core.process import Step
+
+            class Kill(Step):
+                def ports_schema(self):
+                    return {'cells': {'*': {'x': {'_default': 0}}}, 'clk': {'_default': 0.0},
+                            'log': {'_default': [], '_updater': 'v_append'}}
+
+                def next_update(self, timestep, states):
+                    if 'g' in states['cells'] and states['clk'] >= gen['at'] + 1.0 + gen['kill_after']:
+                        return {'cells': {'_delete': ['g']}, 'log': [('kill', 0, 0, 0)]}
+                    return {}
+            steps['kill'] = Kill({})
+            flow['kill'] = []
+            topo['kill'] = {'cells': ('cells',), 'clk': ('genclk',), 'log': ('log',)}
     for pid, ts in enumerate(spec['procs']):
         name = 'p%d' % pid
         processes[name] = Ledger({'pid': name, 'ts': {'kind': 'const', 'v': ts}})
@@ -169,11 +186,22 @@ def run(spec):
     nphases = 0
     gen_names = ['g%d' % k for k in range(gen['n'])] if gen else []
     generated = False
+    killed = False
     for ph in phases:
         inv = [ev for ev in ph if ev[0] == 'invoke' and ev[1] == 'step']
         names = [ev[2][0] for ev in inv]
         nphases += 1
-        if gen and not generated:
+        if any(ev[0] == 'apply' and ev[1][0] == 'kill' for ev in ph):
+            # the generated compartment is deleted during this phase: its steps may have run or not,
+            # every other step still runs exactly once
+            killed = True
+            generated = False
+            names = [nm for nm in names if nm not in gen_names]
+            inv = [ev for ev in inv if ev[2][0] not in gen_names]
+        elif killed:
+            V.check('runtime_steps_run', not any(g in names for g in gen_names),
+                    lambda: ('steps of a deleted compartment ran again', names))
+        if gen and not generated and not killed:
             # the batch that applied the generating update (its marker token) is followed by a phase in
             # which the new steps already exist
             if any(ev[0] == 'apply' and ev[1][0] == 'gen' for ev in ph):
